@@ -1,5 +1,6 @@
 import WpModel.Model.Wire
 import WpModel.Model.C02Extra
+import WpModel.Model.RowEnding
 
 namespace Wp.Drive.C02Extra
 open Wp Wp.C02x
@@ -22,7 +23,8 @@ def errClass (e : PyErr) : String := (e.render.splitOn "@").headD ""
   `ibaseline <is_table_wrapper> <overflow visible> <position_y> <margin_height> (children…)`
       → the baseline | `err:<Class>`                       (child = `(kind inflow position_y baseline (children…))`)
   `thumb <width> <height> <dpi_ratio>` → `(W H)` asked of `Image.thumbnail`
-  `growth <c1> <c2> <c3>` → `ok` | `super-polynomial` -/
+  `growth <c1> <c2> <c3>` → `ok` | `super-polynomial`
+  `row-ending <skip> ((rowspan…)…)` → `ok (row.cell …) …` (the cells ending in each row laid out) | `err:IndexError` -/
 def handle (cmd : String) (args : List Sx) : Option String :=
   match cmd, args with
   | "ibaseline", [w, o, y, m, .list kids] => do
@@ -34,6 +36,14 @@ def handle (cmd : String) (args : List Sx) : Option String :=
   | "thumb", [w, h, r] => do
     let (tw, th) := thumbSize (← w.nat?) (← h.nat?) (← r.rat?)
     pure s!"({tw} {th})"
+  | "row-ending", [skip, .list rows] => do
+    let spans ← allSome (fun r => r.list?.bind (allSome Sx.nat?)) rows
+    match RowEnding.groupEnding spans (← skip.nat?) with
+    | .error e => pure (errClass e)
+    | .ok out =>
+      let showRow := fun (cells : List RowEnding.Cell) =>
+        "(" ++ " ".intercalate (cells.map (fun c => s!"{c.1}.{c.2}")) ++ ")"
+      pure ("ok " ++ " ".intercalate (out.map showRow))
   | "growth", [a, b, c] => do
     pure (if growthOk (← a.nat?) (← b.nat?) (← c.nat?) then "ok" else "super-polynomial")
   | _, _ => none
